@@ -105,7 +105,9 @@ func runC31(x *simkit.Exec) {
 	}
 	x.Sample = map[string]any{"blocks": desc, "sources": nsrc}
 
+	judgeSet := specs
 	judge := func(s *simkit.Sim, what string, kept map[ulid.ULID]bool, hidden []ulid.ULID, canon func(string) string) {
+		specs := judgeSet
 		for _, h := range hidden {
 			hs := byID[h]
 			covered := false
@@ -243,6 +245,86 @@ func runC31(x *simkit.Exec) {
 							}
 						}
 					}
+				}
+			}
+			if x.Failed() {
+				return
+			}
+			// history on ONE long-lived fetcher + filter + syncer (as the compactor and the store gateway
+			// keep them): blocks disappear and appear between syncs
+			h := bkt.Handle("compactor")
+			dedup := block.NewDeduplicateFilter(x.Range("histConc", 1, 4))
+			ign := block.NewIgnoreDeletionMarkFilter(log.NewNopLogger(), h, 48*hourDur, 32)
+			base, err := block.NewBaseFetcher(log.NewNopLogger(), 32, h, block.NewConcurrentLister(log.NewNopLogger(), h), "", prometheus.NewRegistry())
+			if err != nil {
+				x.Troublef("fetcher: %v", err)
+				return
+			}
+			f := base.NewMetaFetcher(prometheus.NewRegistry(), []block.MetadataFilter{ign, dedup})
+			sy, err := compact.NewMetaSyncer(log.NewNopLogger(), prometheus.NewRegistry(), h, f, dedup, ign,
+				prometheus.NewCounter(prometheus.CounterOpts{Name: "a"}), prometheus.NewCounter(prometheus.CounterOpts{Name: "b"}), 0)
+			if err != nil {
+				x.Troublef("syncer: %v", err)
+				return
+			}
+			// blocks that garbage collection marked above are still young: they stay in the view
+			cur := append([]fixtures.SynthSpec(nil), specs...)
+			for step := 0; step < 3; step++ {
+				if err := sy.SyncMetas(ctx); err != nil {
+					x.Troublef("history sync: %v", err)
+					return
+				}
+				kept := map[ulid.ULID]bool{}
+				for id := range sy.Metas() {
+					kept[id] = true
+				}
+				judgeSet = cur
+				judge(s, fmt.Sprintf("history step %d (same filter instance)", step), kept, dedup.DuplicateIDs(), bkt.Canon)
+				if x.Failed() {
+					return
+				}
+				// the bucket changes: a block that covers others vanishes (deleted, or marked long ago), or a new one appears
+				switch x.Draw("histMutation", 3) {
+				case 0, 1:
+					var cands []int
+					for i, sp := range cur {
+						if kept[sp.ID] && len(sp.Sources) > 1 {
+							cands = append(cands, i)
+						}
+					}
+					if len(cands) == 0 {
+						for i, sp := range cur {
+							if kept[sp.ID] {
+								cands = append(cands, i)
+							}
+						}
+					}
+					if len(cands) > 0 {
+						i := cands[x.Draw("histVictim", len(cands))]
+						id := cur[i].ID.String()
+						if x.Bool("histMarkInsteadOfDelete", 1, 2) {
+							_ = bkt.Inner.Upload(ctx, id+"/"+metadata.DeletionMarkFilename,
+								strings.NewReader(fmt.Sprintf(`{"id":%q,"version":1,"deletion_time":%d}`, id, (epochMs-100*hourMs)/1000)))
+						} else {
+							for n := range bkt.Inner.Objects() {
+								if strings.HasPrefix(n, id+"/") {
+									_ = bkt.Inner.Delete(ctx, n)
+								}
+							}
+						}
+						cur = append(cur[:i:i], cur[i+1:]...)
+						s.Probe("c31.history_block_removed")
+					}
+				case 2:
+					src := srcs[x.Draw("histSrc", nsrc)]
+					sp := fixtures.SynthSpec{ID: fixtures.ULID(uint64(epochMs-4*hourMs)+uint64(step), x.Seed*32+100+uint64(step)), MinT: epochMs - 20*hourMs, MaxT: epochMs - 18*hourMs,
+						Level: 1, Sources: []ulid.ULID{src}, Labels: groups[0].labels, Resolution: groups[0].res, Thanos: true, NumSamples: 1, NumSeries: 1}
+					var sb strings.Builder
+					m := sp.Meta()
+					_ = m.Write(&sb)
+					_ = bkt.Inner.Upload(ctx, sp.ID.String()+"/meta.json", strings.NewReader(sb.String()))
+					byID[sp.ID] = sp
+					cur = append(cur, sp)
 				}
 			}
 		})
